@@ -448,6 +448,21 @@ def empirical_rules(prog, chk, tier="quick"):
                    detail=None if bad is None else bad + ": the interpolation of one direction is not the inverse of the other's",
                    key="C18e|%s|%d" % (name, len(Z)))
     chk.floor("C18e", n, 4)
+    # C18j: an undefined value stays undefined through the scalar entry points (it must not be clamped like a large value)
+    Z, Y = tables[0]
+    UNDEF = (TESTV, Fraction(1.234e30))
+    nj = 0
+    for fn, ff in (("rawToTransformValue", r2t[0]), ("transformToRawValue", t2r[0])):
+        try:
+            w = call_method(prog, Obj("AnamEmpirical", _ZDisc=list(Z), _YDisc=list(Y), _nDisc=F(len(Z))), fn, [TESTV])
+        except Unsupported as e:
+            raise facts.AnalysisBroken("C18j: %s left the interpreted fragment: %s" % (fn, e))
+        nj += 1
+        ok = w in UNDEF
+        chk.ob("C18j", "AnamEmpirical::%s of an undefined value is undefined" % fn, ff.loc(), ok,
+               detail=None if ok else "the undefined value (1.234e30) is clamped to the end of the table and comes back as %s: an undefined datum becomes "
+               "a defined transformed value" % w, key="C18j|%s" % fn)
+    chk.floor("C18j", nj, 2)
 
 def stats_rules(prog, chk):
     """C18g - the statistics that define a transform (means, variances, covariances of the PCA / MAF) divide each sum by the count of the
